@@ -228,6 +228,32 @@ def table_val(t):
             "transposed": bool(t.metadata.transposed), "columns": cols}
 
 
+def table_from_val(tv):
+    """protocol TableVal -> real Table (inverse of table_val: same dtypes, values, header)"""
+    import numpy as np
+    import pandas as pd
+    from pdtable import Table
+    data, units = {}, []
+    for c in tv["columns"]:
+        v = c["values"]
+        units.append(c["unit"])
+        if c["unit"] == "onoff" or (v and all(isinstance(x, bool) for x in v)):
+            data[c["name"]] = np.array(v, dtype=bool)
+        elif c["unit"] == "datetime" or (v and all(isinstance(x, dict) and "d" in x for x in v)):
+            data[c["name"]] = pd.Series([pd.NaT if x["d"] == "NaT" else pd.Timestamp(x["d"]) for x in v],
+                                        dtype="datetime64[us]").to_numpy() if v else np.array([], dtype="datetime64[us]")
+        elif v and all(isinstance(x, dict) and "i" in x for x in v):
+            data[c["name"]] = np.array([x["i"] for x in v], dtype="int64")
+        elif c["unit"] == "text":
+            data[c["name"]] = np.array(v, dtype=object) if v else np.array([], dtype=object)
+        else:
+            data[c["name"]] = np.array([float(x["f"]) for x in v], dtype="float64")
+    with warnings.catch_warnings():
+        warnings.simplefilter("ignore")
+        return Table(pd.DataFrame(data), name=tv["name"], destinations=set(tv["destinations"]), units=units,
+                     transposed=tv["transposed"])
+
+
 def observe(t):
     """what the property compares: header + values by value (ints as numbers)"""
     d = rc.canon_table(t)
